@@ -288,7 +288,7 @@ def obligations(tier):
             f"one fault from {FAULTS} at every position of the event script (<= 2 client pieces, <= 3 server pieces incl. close), "
             f"early response to a streamed request, addon policy per fired hook from {POLICIES} with at most {base['max_actions']} non-pass actions per run, final close order")
     return [
-        Symx("lifecycle", lambda X: h_lifecycle(X, base), bounds=desc, encoded=ENCODED,
+        Symx("lifecycle" if q else "lifecycle-3-actions", lambda X: h_lifecycle(X, base), bounds=desc, encoded=ENCODED,
              must_reach=["ran", "outcome-response", "outcome-error", "killed", "response-set", "streamed", "intercepted", "early-response", "streamed-flow-checked",
                          "fault:client-close", "fault:server-close", "fault:client-protocol-error", "fault:server-protocol-error"] + ([] if q else ["two-flows"]),
              parallel_depth=4),
